@@ -18,6 +18,8 @@
 package processor
 
 import (
+	"errors"
+
 	"github.com/siglens/siglens/pkg/segment/query/iqr"
 	"github.com/siglens/siglens/pkg/segment/structs"
 )
@@ -26,16 +28,19 @@ type transactionProcessor struct {
 	options *structs.TransactionArguments
 }
 
+// The transaction command is not implemented in this pipeline. The query is rejected with an
+// error: a panic here runs on the query goroutine, which nothing recovers, and would end the
+// whole server process.
 func (p *transactionProcessor) Process(iqr *iqr.IQR) (*iqr.IQR, error) {
-	panic("not implemented")
+	return nil, errors.New("transactionProcessor.Process: the transaction command is not supported")
 }
 
 func (p *transactionProcessor) Rewind() {
-	panic("not implemented")
+	// nothing to rewind
 }
 
 func (p *transactionProcessor) Cleanup() {
-	panic("not implemented")
+	// nothing to clean up
 }
 
 func (p *transactionProcessor) GetFinalResultIfExists() (*iqr.IQR, bool) {
